@@ -1642,21 +1642,40 @@ def table_text_condition(ctx):
                         return False
                     if t.startswith("self.parser.phase.process"):
                         return False
+                    # a helper method of the phase, called for its effect: its statements are run in place
+                    if isinstance(st.value.func, ast.Attribute) and norm(st.value.func.value) == "self" and not st.value.keywords:
+                        h = it.find_method(st.value.func.attr)
+                        if h is not None and len(h.params()) - 1 == len(st.value.args) and inl[0] < 2:
+                            sub_env = dict(out.env)
+                            for p_, a_ in zip(h.params()[1:], st.value.args):
+                                sub_env[p_] = out.env.get(a_.id, Opaque(norm(a_))) if isinstance(a_, ast.Name) else Opaque(norm(a_))
+                            saved = out.env
+                            out.env = sub_env
+                            inl[0] += 1
+                            try:
+                                interp._block(h.node.body, out)
+                            finally:
+                                inl[0] -= 1
+                                out.env = saved
+                            out.returned = False
+                            return False
                 return NotImplemented
+            inl = [0]
             key = "table-text::%s::current-node-%s" % (meth, name)
             try:
-                MiniInterp(ctx.ce, mod, expr_hook=hook, stmt_hook=stmt_hook).run(f.node.body, {"self": Opaque("self"), f.params()[1]: Opaque("token")})
+                res = MiniInterp(ctx.ce, mod, expr_hook=hook, stmt_hook=stmt_hook).run(f.node.body, {"self": Opaque("self"), f.params()[1]: Opaque("token")})
             except AnalysisError as e:
                 r.idiom("C01.24", False, key, f.where, "InTablePhase.%s not decidable (%s)" % (meth, str(e)[:80]))
                 continue
             want = name in TABLE_TEXT_CURRENT
+            unknown = [e for e in res.effects if isinstance(e.node, ast.Expr)]       # calls the rule did not follow
             r.idiom("C01.24", bool(entered) == want and (want or bool(delegated)), key, f.where,
                     "InTablePhase.%s with current node <%s>: neither table text nor an in-body delegation was recognised" % (meth, name),
                     wrong=[(bool(entered) and not want,
                             "in table, a character token with current node <%s> is collected as table text; for the standard it is \"anything "
                             "else\" (in-body rules, foster parenting): `<p><b></p><table><div> </div>` must reconstruct <b> inside the div, and "
                             "`<table><pre>\\nx` must drop the newline" % name),
-                           (not entered and want, "in table, a character token with current node <%s> is not collected as table text: "
+                           (not entered and want and not unknown, "in table, a character token with current node <%s> is not collected as table text: "
                                                   "white space between rows would be foster-parented / reconstructed" % name)],
                     data={"handler": meth, "current_node": name}, detail={"handler": meth, "current_node": name, "table_text": bool(entered)})
 
